@@ -93,6 +93,8 @@ inductive Expr where
   | f2u (a : Expr)                          -- `uint64(a)`, `a` a float64
   | i2f (a : Expr)                          -- `float64(a)`, `a` an int64
   | u2f (a : Expr)                          -- `float64(a)`, `a` a uint64
+  | leBytes (a : Expr)                      -- the 8 bytes `binary.LittleEndian.PutUint64(tmp[:], a)` leaves in `tmp`
+  | idxU (a i : Expr)                       -- `a[i]` of a `[]uint64` / `[N]uint32` (a uint32 is carried as a `u64` below 2^32)
   deriving Repr, Inhabited
 
 inductive Stmt where
@@ -126,6 +128,11 @@ inductive Stmt where
       -- `target = fn(...)` for a function-valued parameter `fn`: the answer is the next element of the variable
       -- `fn.results` (a `Val.bools`; not consumed when `target` is `_`), and the integers `logs` evaluate to are
       -- appended to the variable `fn.log` — what the callback was given
+  | panicS                                          -- `panic(…)`
+  | setU (name : String) (idx e : Expr)             -- `name[idx] = e` for a `[]uint64` / `[N]uint32` variable
+  | oracle (target name : String)
+      -- `target = name(…)` for a function known only by contract to return *some* uint64 (`runtime.memhash`, seeded
+      -- per process): the answer is the next element of the variable `name.answers` (a `Val.u64s`)
   deriving Repr, Inhabited
 
 structure FunDef where
@@ -519,6 +526,21 @@ def evalE (s : St) : Expr → EOut
     | .val (.u64 x) => .val (.u64 (F64.ofNat x.toNat))
     | .val _ => .stuck "uint operand"
     | o => o
+  | .leBytes a =>
+    match evalE s a with
+    | .val (.u64 w) => .val (.bytes ((List.range 8).map (fun i => (w >>> (UInt64.ofNat (8 * i))).toUInt8)).toArray)
+    | .val _ => .stuck "PutUint64 operand"
+    | o => o
+  | .idxU a i =>
+    match evalE s a with
+    | .val (.u64s l) =>
+      (match evalE s i with
+       | .val (.int k) => if 0 ≤ k ∧ k < l.length then .val (.u64 (l.getD k.toNat 0)) else .panic
+       | .val (.u64 k) => if k.toNat < l.length then .val (.u64 (l.getD k.toNat 0)) else .panic
+       | .val _ => .stuck "index type"
+       | o => o)
+    | .val _ => .stuck "index operand"
+    | o => o
   | .idxB a i =>
     match evalE s a with
     | .val (.bytes b) =>
@@ -679,6 +701,29 @@ def exec1 (funs : String → Option FunDef) : (fuel : Nat) → Stmt → St → O
        | o => ofE o)
     | .val _ => .stuck "index type"
     | o => ofE o
+  | fuel, .panicS, s => .panic
+  | fuel, .setU name idx e, s =>
+    match s.env.get name with
+    | some (.u64s l) =>
+      (match evalE s idx with
+       | .val (.u64 k) =>
+         (match evalE s e with
+          | .val (.u64 x) => if k.toNat < l.length then .normal { s with env := s.env.set name (.u64s (l.set k.toNat x)) } else .panic
+          | .val _ => .stuck "element value type"
+          | o => ofE o)
+       | .val (.int k) =>
+         (match evalE s e with
+          | .val (.u64 x) => if 0 ≤ k ∧ k < l.length then .normal { s with env := s.env.set name (.u64s (l.set k.toNat x)) } else .panic
+          | .val _ => .stuck "element value type"
+          | o => ofE o)
+       | .val _ => .stuck "index type"
+       | o => ofE o)
+    | _ => .stuck "uint64 slice variable"
+  | fuel, .oracle target name, s =>
+    match s.env.get (name ++ ".answers") with
+    | some (.u64s (r :: rest)) => .normal { s with env := (s.env.set (name ++ ".answers") (.u64s rest)).set target (.u64 r) }
+    | some (.u64s []) => .stuck "oracle answers exhausted"
+    | _ => .stuck "no oracle answers"
   | fuel, .setB name idx e, s =>
     match s.env.get name with
     | some (.bytes b) =>
